@@ -566,9 +566,15 @@ class Explorer:
 
     def _table_of(self, addr):
         """addr == sym!<jump table> + 8*idx ?"""
-        if not z3.is_app(addr) or addr.decl().kind() != z3.Z3_OP_BADD:
+        if not z3.is_app(addr):
             return None
-        syms = [c for c in addr.children() if z3.is_const(c) and c.decl().kind() == z3.Z3_OP_UNINTERPRETED
+        if z3.is_const(addr) and addr.decl().kind() == z3.Z3_OP_UNINTERPRETED and addr.decl().name().startswith("sym!"):
+            cands = [addr]                      # index 0: the address is the table itself
+        elif addr.decl().kind() == z3.Z3_OP_BADD:
+            cands = addr.children()
+        else:
+            return None
+        syms = [c for c in cands if z3.is_const(c) and c.decl().kind() == z3.Z3_OP_UNINTERPRETED
                 and c.decl().name().startswith("sym!")]
         if len(syms) != 1:
             return None
